@@ -44,6 +44,7 @@ type Tag struct {
 }
 
 type HTML struct {
+	UTF8OK  bool
 	Tags    []Tag
 	Scripts []string
 	Text    []string
@@ -161,6 +162,7 @@ func ParseHTML(data []byte) (*HTML, error) {
 		json.Unmarshal(t[1], &tag.Attrs)
 		h.Tags = append(h.Tags, tag)
 	}
+	json.Unmarshal(resp["utf8_ok"], &h.UTF8OK)
 	json.Unmarshal(resp["scripts"], &h.Scripts)
 	json.Unmarshal(resp["text"], &h.Text)
 	return h, nil
